@@ -15,7 +15,7 @@ from simkit import gen, model
 from simkit.harness import HarnessError, World, real_makedirs, rm_root
 from simkit.seam import REAL
 
-TIERS = {"C15": {"quick": 128, "thorough": 4000}}
+TIERS = {"C15": {"quick": 128, "thorough": 1000}}
 LEVEL = {"C15": "fault_enumeration"}
 RULE = {
     "C15": "scenario = one of four operation families (stage+transfer into a local store "
